@@ -206,8 +206,6 @@ def ss_add_constraints(M, intg):
             st["self.Z"] = SymList(0 if k == 0 else k + 1, lambda idx: ca.MX(0, 1), "Z")
         if env["self"].poly_coeff is not None:
             st["self.poly_coeff"] = SymList(unwrap_int(k * M), pc_at, "poly_coeff")
-        if isinstance(k, SymInt):
-            unfold(k)          # the recurrence at the index the step obligation needs
         return st
 
     def emits1(k, env):
@@ -226,7 +224,7 @@ def ss_add_constraints(M, intg):
         return rows
 
     loops.SPECS.clear()
-    loops.SPECS[(QUAL, 0)] = loops.LoopSpec(state=state0)
+    loops.SPECS[(QUAL, 0)] = loops.LoopSpec(state=state0, unfold=lambda k, env: unfold(k))
     loops.SPECS[(QUAL, 1)] = loops.LoopSpec(emits=emits1)
     with loops.patched(SingleShooting, "add_constraints", QUAL):
         n0 = len(opti.constraints)
